@@ -236,7 +236,7 @@ static Boolean DecodeBitArg2(
             return False;
         }
         *pResult |= ((EvalResult.AddrSpaceMask & (1 << SegData)) ? BitFlag_Data : 0)
-                    | (Addr & 0x1ff) << 3;
+                    | (Addr & 0xffff) << 3;
         return True;
     }
 }
